@@ -119,6 +119,8 @@ where
     for<'b> BumpVec<E, &'b BumpScope<'b, A, S>>: VecCore<E>,
     for<'b> MutBumpVec<E, &'b mut BumpScope<'b, A, S>>: VecCore<E>,
     for<'b> MutBumpVecRev<E, &'b mut BumpScope<'b, A, S>>: VecCore<E>,
+    for<'r, 'b> MutBumpVec<E, super::families::DynMut<'r, 'b>>: VecCore<E>,
+    for<'r, 'b> MutBumpVecRev<E, super::families::DynMut<'r, 'b>>: VecCore<E>,
 {
     let mut rng = Rng::new(seed);
     let mut policy = if p.thick { Policy::thick() } else { Policy::thin() };
@@ -346,11 +348,21 @@ where
     for<'b> BumpVec<E, &'b BumpScope<'b, A, S>>: VecCore<E>,
     for<'b> MutBumpVec<E, &'b mut BumpScope<'b, A, S>>: VecCore<E>,
     for<'b> MutBumpVecRev<E, &'b mut BumpScope<'b, A, S>>: VecCore<E>,
+    for<'r, 'b> MutBumpVec<E, super::families::DynMut<'r, 'b>>: VecCore<E>,
+    for<'r, 'b> MutBumpVecRev<E, super::families::DynMut<'r, 'b>>: VecCore<E>,
 {
     let mon = ctx.mon.clone().unwrap();
     ctx.begin("init arena".into());
-    let Ok(mut bump) = Bump::<A, S>::try_new_in(A::with(&mon)) else { return };
-    prepare(&mut bump, &mut ctx.rng);
+    // a not-guaranteed-allocated arena may still be without any chunk when the collection first needs memory
+    let unallocated_start = !S::GUARANTEED_ALLOCATED && ctx.rng.chance(1, 2);
+    let mut bump = if unallocated_start {
+        ctx.rep.count("collection_on_unallocated_arena");
+        Bump::<A, S>::default()
+    } else {
+        let Ok(mut bump) = Bump::<A, S>::try_new_in(A::with(&mon)) else { return };
+        prepare(&mut bump, &mut ctx.rng);
+        bump
+    };
     // faults and fuel only start now: the subject is the collection
     mon.borrow_mut().fail = fail;
     let base0 = mon.borrow().alloc_calls;
@@ -599,13 +611,26 @@ where
             let min_align = S::MIN_ALIGN;
             let up = S::UP;
             let finalise = ctx.rng.chance(2, 3);
+            // one in three through `&mut dyn MutBumpAllocatorCoreScope`
+            let via_dyn = ctx.rng.chance(2, 5);
+            if via_dyn {
+                ctx.rep.count("mut_collection_via_dyn");
+            }
             let mut final_len = 0usize;
             let mut finalised = false;
             {
                 let s = bump.as_mut_scope();
                 macro_rules! go {
                     ($T:ident, $name:literal) => {{
-                        let (r, model0, ctor) = construct!(ctx, $T, s, rev, cap, init);
+                        if via_dyn {
+                            let d: super::families::DynMut = s;
+                            go!(@run $T, $name, d)
+                        } else {
+                            go!(@run $T, $name, s)
+                        }
+                    }};
+                    (@run $T:ident, $name:literal, $s:ident) => {{
+                        let (r, model0, ctor) = construct!(ctx, $T, $s, rev, cap, init);
                         let Ok(Ok(mut v)) = r else {
                             tr::set_fuel(None);
                             return;
@@ -700,7 +725,7 @@ where
                     }
                     if let Some(c) = bump.stats().current_chunk() {
                         let used = c.allocated();
-                        if used < bytes || used > max + 64 {
+                        if used < bytes || used > max {
                             ctx.viol("C15", format!("commit_in_new_chunk_used_wrong_amount:{:?}", fam), format!("{used} bytes used for {bytes} content bytes"));
                         }
                     }
